@@ -483,6 +483,13 @@ func (c *Ctx) topBitZero(t *Term) bool {
 	return false
 }
 
+// ConstLeaves / MapLeaves are the exported forms used by the interpreter for
+// table lookups with an ite-tree index.
+func ConstLeaves(t *Term, n int) bool { return constLeaves(t, n) }
+func (c *Ctx) MapLeaves(t *Term, f func(*Term) *Term) *Term {
+	return c.mapLeaves(t, f)
+}
+
 // constLeaves reports whether t is an ite tree (at most n nodes) whose leaves are all constants.
 func constLeaves(t *Term, n int) bool {
 	cnt := 0
@@ -624,6 +631,13 @@ func (c *Ctx) cmp(op Op, a, b *Term) *Term {
 	}
 	if a == b {
 		return c.Bool(op == OpULE || op == OpSLE)
+	}
+	// comparison of a constant-leaf ite tree (table lookup) with a constant
+	if b.IsConst() && constLeaves(a, 64) {
+		return c.mapLeaves(a, func(k *Term) *Term { return c.cmp(op, k, b) })
+	}
+	if a.IsConst() && constLeaves(b, 64) {
+		return c.mapLeaves(b, func(k *Term) *Term { return c.cmp(op, a, k) })
 	}
 	switch op {
 	case OpULT:
